@@ -23,7 +23,7 @@ type TreeCacheClient interface {
 	ReadRunningFull(ctx context.Context) ([]*cache.Update, error)
 	GetBranchesHighesPrecedence(ctx context.Context, path []string, filters ...CacheUpdateFilter) int32
 	ReadCurrentUpdatesHighestPriorities(ctx context.Context, ccp PathSlices, count uint64) UpdateSlice
-	IntendedPathExists(ctx context.Context, path []string) (bool, error)
+	IntendedPathExists(ctx context.Context, path []string, filters ...CacheUpdateFilter) (bool, error)
 	ReadUpdatesOwner(ctx context.Context, owner string) UpdateSlice
 }
 
@@ -49,7 +49,8 @@ func NewTreeCacheClient(datastore string, cc cache.Client) *TreeCacheClientImpl 
 	}
 }
 
-func (t *TreeCacheClientImpl) IntendedPathExists(ctx context.Context, path []string) (bool, error) {
+// IntendedPathExists checks if the intended store holds an entry for the given path, that passes all the given filters.
+func (t *TreeCacheClientImpl) IntendedPathExists(ctx context.Context, path []string, filters ...CacheUpdateFilter) (bool, error) {
 	t.intendedStoreIndexMutex.RLock()
 	if t.intendedStoreIndex == nil {
 		t.intendedStoreIndexMutex.RUnlock()
@@ -57,8 +58,12 @@ func (t *TreeCacheClientImpl) IntendedPathExists(ctx context.Context, path []str
 		t.intendedStoreIndexMutex.RLock()
 	}
 	defer t.intendedStoreIndexMutex.RUnlock()
-	_, exists := t.intendedStoreIndex[strings.Join(path, KeysIndexSep)]
-	return exists, nil
+	for _, entry := range t.intendedStoreIndex[strings.Join(path, KeysIndexSep)] {
+		if ApplyCacheUpdateFilters(entry, filters) {
+			return true, nil
+		}
+	}
+	return false, nil
 }
 
 func (c *TreeCacheClientImpl) Read(ctx context.Context, opts *cache.Opts, paths [][]string) []*cache.Update {
